@@ -40,7 +40,10 @@ func loadEnvInternal(env map[string]string, prefix string, prv reflect.Value) er
 			if err != nil {
 				return fmt.Errorf("%s: %w", prefix, err)
 			}
-		} else if envHasAtLeastAKeyWithPrefix(env, prefix) {
+		} else if !prv.IsNil() && envHasAtLeastAKeyWithPrefix(env, prefix+"_") {
+			// a variable that addresses a child of this value (MTX_PATHS_CAM_SOURCE for MTX_PATHS_CAM).
+			// Variables that merely start with the same letters (MTX_AUTHMETHODS for MTX_AUTHMETHOD)
+			// belong to another parameter, and an unset optional value has no children to load.
 			err := i.UnmarshalEnv(prefix, "")
 			if err != nil {
 				return fmt.Errorf("%s: %w", prefix, err)
